@@ -72,14 +72,16 @@ HasVariant(r, v) ==
   /\ (v = "slash") => ~r.sub \/ r.id \notin {"agents_", "pprof_index"}
   /\ (r.id \in {"agents_", "pprof_index"}) => v # "slash"
   /\ r.sub => v \notin {"slash", "ext", "sub"}          \* these stay inside the subtree handler
+  /\ (r.id = "agents") => v \notin {"slash", "sub"}     \* /agents/... is the subtree pattern /agents/
 
 Methods == IF Quick THEN {"GET", "POST", "CONNECT"} ELSE {"GET", "POST", "DELETE", "CONNECT"}
-Pres == {"none", "hvalid", "hinvalid", "qvalid", "qinvalid", "basic", "lower", "both"}
+Pres == {"none", "hvalid", "hinvalid", "qvalid", "qinvalid", "basic", "empty", "both"}
    \* no token | Authorization: Bearer <valid|invalid> | ?token=<valid|invalid> | Authorization: Basic <valid token> |
-   \* "bearer <valid>" (wrong case of the scheme) with ?token=<invalid> | Bearer <invalid> with ?token=<valid>
-ValidPres(p) == p \in {"hvalid", "qvalid"}
-\* "lower": the header is not a Bearer header, so the query token (invalid) decides -> invalid.
-\* "both": the header wins (invalid) -> invalid.  "basic": wrong scheme, no query token -> invalid.
+   \* "Bearer " with an empty token and ?token=<invalid> | Bearer <invalid> with ?token=<valid>
+ValidPres(p) == p \in {"hvalid", "qvalid"}      \* what the implementation accepts
+\* "both" carries the valid token in the query and a wrong one in the header: the statement promises nothing for it
+\* (the implementation lets the header win and refuses); the oracle demands nothing but NOT401 there.
+Ambiguous(p) == p = "both"
 
 Flags == [pprof : BOOLEAN, dashboard : BOOLEAN, remote : BOOLEAN]
 Enabled(g, f) == CASE g = "remote" -> f.remote [] g = "dashboard" -> f.dashboard [] g = "pprof" -> f.pprof [] OTHER -> TRUE
@@ -94,7 +96,7 @@ QuickOK(vv, m, p, f) ==
   /\ (f \in {AllOn, AllOff} \/ (vv = "exact" /\ p \in {"none", "hvalid"}))
   /\ (m = "CONNECT" => vv \in Cleaned \cup {"exact"})
   /\ (m = "POST" => vv \in {"exact", "cross", "pct"})
-  /\ (p \in {"lower", "both"} => vv = "exact")
+  /\ (p \in {"empty", "both"} => vv = "exact")
 
 CasesFor(r) ==
   LET vs == {vv \in Variants : HasVariant(r, vv)} IN
@@ -110,11 +112,13 @@ Cases == UNION {CasesFor(r) : r \in Routes}
 Addresses(c)  == c.v \in Addressing                 \* the request addresses endpoint c.r
 Canonical(c)  == c.v \in {"exact", "query"}
 Authorised(c) == ~c.tok \/ ValidPres(c.p)
-Must401(c) == c.tok /\ ~ValidPres(c.p) /\ Addresses(c) /\ ~c.exempt
+Unclear(c)    == c.tok /\ Ambiguous(c.p)
+Must401(c) == c.tok /\ ~ValidPres(c.p) /\ ~Unclear(c) /\ Addresses(c) /\ ~c.exempt
 Not401(c)  == c.exempt /\ Canonical(c)
 Must404(c) == Authorised(c) /\ Addresses(c) /\ ~c.exempt /\ ~Enabled(c.grp, c.fl)
 \* which provider calls are acceptable: "none" | "probe" (health/readiness providers only) | "any"
-ActLimit(c) == IF Must401(c) \/ Must404(c) THEN "none"
+ActLimit(c) == IF Unclear(c) THEN "any"
+               ELSE IF Must401(c) \/ Must404(c) THEN "none"
                ELSE IF ~Authorised(c) THEN (IF Addresses(c) /\ c.exempt THEN "probe" ELSE "none")
                ELSE "any"
 
@@ -132,7 +136,9 @@ Impl(c) ==
   IN IF "DevGateBeforeAuth" \in Dev /\ gated /\ c.v \notin Cleaned THEN "404"
      ELSE IF ~pass THEN "401"
      ELSE IF c.v \in Cleaned /\ c.m # "CONNECT" THEN "redirect"
-     ELSE IF c.v \in Cleaned THEN "404"                  \* CONNECT: no cleaning, the unclean path matches only "/"
+     ELSE IF c.v \in Cleaned                             \* CONNECT: no cleaning; the unclean path matches "/" only,
+       THEN (IF c.v = "cross" /\ c.exempt /\ c.fl.remote  \* except /agents/../P which lies in the subtree /agents/
+               THEN "handler" ELSE "404")
      ELSE IF ~Addresses(c) THEN "404"                    \* unknown path: catch-all "/" -> handleSplash -> 404
                                                          \* (or a disabled group's subtree handler)
      ELSE IF gated THEN "404"
